@@ -18,4 +18,11 @@ CLAIMS = {
     "C03": dict(text="TLC checks each recorded client-side response against the protocol's response grammar (status, content-type, envelopes, declared compression vs byte form, content-length, exactly one terminal disposition in the protocol's place, nothing after it).", note=STREAM_NOTE),
     "C13": dict(text="For every enumerated configuration in which the client's triple is acceptable TLC checks that the recorded downstream request equals the client's (method, URL, version, headers, content length, bytes) and the client's response equals the handler's.", note=STREAM_NOTE),
 }
+CLAIMS.update({
+    "C04": dict(text="TLC enumerates handler errors (codes 1-16 and out-of-range, five message classes, 0/2 details, trailers-only and after-messages positions) and bare HTTP failures for every client form x target protocol; each is replayed and TLC checks code, message, details and the HTTP status table on the recorded client-side outcome.", note=STREAM_NOTE),
+    "C05": dict(text="TLC enumerates header-class sets on requests, responses and trailers (both declaration styles, success and error) for every RPC client form x target protocol; TLC checks on the recorded traces that every token arrived intact in the position the client's protocol defines and that no status key leaked.", note=STREAM_NOTE + " REST has no trailer position in the property; REST-side trailers are outside the alphabet."),
+    "C09": dict(text="TLC enumerates cut points (inside envelope, inside payload, clean and abrupt), invalid flag bytes, over/under-declared lengths, undecodable and corrupt-gzip payloads, missing or malformed end-of-stream on either side for every pairing; TLC checks that no recorded trace ends OK for a faithful client and that no phantom message reached the backend.", note=STREAM_NOTE + " Request-side verdicts assume the scripted backend behaves like connect-go/grpc-go (fails on read errors, incomplete frames, undecodable payloads)."),
+    "C11": dict(text="The hostile, fault, error and rejection corpora are replayed with panics recovered and the ResponseWriter mimicking net/http; TLC checks no panic, one response head, a frameable body on every recorded trace.", note=STREAM_NOTE + " 'All byte strings' is covered as abstract hostile classes with sampled bytes; wedging is covered by the flow family (C16)."),
+    "C18": dict(text="TLC enumerates the rejection catalogue of validate/resolveMethod/classifyRequest/handle x client forms and all exit paths; TLC checks on the recorded traces at most one dispatch, none for rejected requests, context cancelled at return, no reads or writes afterwards.", note=STREAM_NOTE),
+})
 NOT_APPLICABLE = {}
